@@ -868,6 +868,12 @@ def c20_15(ctx):
 
 
 def c20_17(ctx):
+    if not hasattr(ctx, "_c20_17"):
+        ctx._c20_17 = _c20_17(ctx)
+    return ctx._c20_17
+
+
+def _c20_17(ctx):
     """the part parser on parts of every size the property quantifies over: _parse_bcur_helper evaluated on well-formed single and multi parts
     whose payload has 1, 58, 300, 1023, 1024, 2000 and 40000 characters of the bc32 alphabet (a 70,000-byte payload in one part has more than
     100,000) -- all accepted with the payload, checksum and x-of-y returned as written -- and on the same parts with one character outside the
@@ -900,12 +906,43 @@ def c20_17(ctx):
                                     key="part-sizes")]
                 except Raised:
                     pass
+        # malformed parts: every way a part can deviate from ur:bytes/[xofy/][digest/]payload is refused
+        pl = "".join(ALPHA[(i * 5 + 1) % 32] for i in range(40))
+        malformed = [("no section after the prefix", "ur:bytes"), ("another prefix", "ur:byte/%s" % pl), ("another scheme", "xr:bytes/%s" % pl), ("the prefix missing", pl),
+                     ("five sections", "ur:bytes/1of2/%s/%s/%s" % (chk, pl, pl)), ("six sections", "ur:bytes/1of2/%s/%s/%s/%s" % (chk, pl, pl, pl)),
+                     ("x greater than y", "ur:bytes/3of2/%s/%s" % (chk, pl)), ("an x-of-y section without y", "ur:bytes/2of/%s/%s" % (chk, pl)),
+                     ("an x-of-y section with three numbers", "ur:bytes/1of2of3/%s/%s" % (chk, pl)), ("a non-numeric x", "ur:bytes/aof3/%s/%s" % (chk, pl)),
+                     ("a non-numeric y", "ur:bytes/1ofb/%s/%s" % (chk, pl)), ("a digest section of 57 characters", "ur:bytes/%s/%s" % (chk[:57], pl)),
+                     ("a digest section of 59 characters", "ur:bytes/%s/%s" % (chk + "q", pl)), ("a digest section of 57 characters in a multi part", "ur:bytes/1of2/%s/%s" % (chk[:57], pl)),
+                     ("a digest section with a foreign character", "ur:bytes/%s/%s" % ("b" + chk[1:], pl))]
+        for what, text in malformed:
+            n += 1
+            try:
+                r = Evaluator(ctx.repo, max_steps=3000000).call(spec, [text])
+                return [ctx.bad(spec, "a part with %s (`%s…`) is accepted as %s" % (what, text[:40], (tuple(r)[1:] if isinstance(r, (tuple, list)) else r)), fn, mod, key="part-sizes")]
+            except Raised:
+                pass
     except Undecided as u:
         return [ctx.err(spec, "part parser not evaluable: %s" % u, fn, mod)]
     ctx.count("cells", n)
-    return [ctx.ok(spec, "%d parts with payloads of 1 … 40000 characters: well-formed ones accepted as written, one foreign character refused at any position" % n, fn, mod,
-                   key="part-sizes")]
+    return [ctx.ok(spec, "%d parts with payloads of 1 … 40000 characters: well-formed ones accepted as written, one foreign character refused at any position; 15 malformed "
+                         "shapes (prefix, section count, x-of-y, digest length / alphabet) refused" % n, fn, mod, key="part-sizes")]
 
+
+
+def _c20_5_deferring(ctx):
+    """shape of a part (GUARDs and accept sets of the part parser); where the parser is in another form the part cells (C20.17: well-formed parts
+    of every size accepted as written, 15 malformed shapes refused) decide the clauses anchored in _parse_bcur_helper"""
+    try:
+        out = c20_5(ctx)
+    except AnalysisError as e:
+        mod, fn = rl.get(ctx, "bcur:_parse_bcur_helper")
+        if "BCURSingle" in str(e):
+            raise
+        out = [ctx.err("bcur:_parse_bcur_helper", str(e), fn, mod)]
+    rl.defer(ctx, [r for r in out if "_parse_bcur_helper" in r.anchor], lambda: c20_17(ctx), "decided by the part cells (C20.17: well-formed parts accepted as written; prefix, section "
+             "count, x-of-y and digest-section deviations refused); the parser is not in the form this rule reads")
+    return out
 
 
 OBLIGATIONS = [
@@ -920,7 +957,7 @@ OBLIGATIONS = [
     ("C20.2", "SIBLING", c20_2),
     ("C20.3", "GUARD", c20_3),
     ("C20.4", "GUARD per-iteration", c20_4),
-    ("C20.5", "GUARD", c20_5),
+    ("C20.5", "GUARD", _c20_5_deferring),
     ("C20.6", "AFFINE", c20_6),
     ("C20.7", "DATAFLOW verbatim", c20_7),
     ("C20.8", "MEMO", c20_8),
